@@ -403,12 +403,14 @@ class FnFlow:
                     cs = 'none'
                 if cs not in (None, 'none'):
                     W.add('Dirty', v, cs)
+                    W.add('Under', v, cs)
             elif d[0] == 'childof':
                 if d[1] != ('this',):
                     W.add('LFN', v, d[1], d[2])
                     cs = self.cs_for(W, ('n', d[1]))
                     if cs is not None:
                         W.add('Dirty', v, cs)
+                        W.add('Under', v, cs)
             elif d[0] == 'fresh':
                 W.add('Fresh', v)
             elif d[0] == 'reclaim':
@@ -756,6 +758,16 @@ class FnFlow:
                 d = self.desc(od[2], W)
                 if d[0] == 'var':
                     self.deref_sink(W, d[1], loc, 'taking its lock')
+            if nm == 'try_read_lock' and od[0] == 'lock' and len(od) > 2:
+                d2 = self.desc(od[2], W)
+                if d2[0] == 'var':
+                    cls_ = W.same_class(d2[1])
+                    for x in W.sel('Under'):
+                        if x[1] in cls_:
+                            st_ = W.st(x[2])
+                            ok_ = st_ in ('O', None) or self.vkind.get(x[2]) == 'wg'
+                            self.ob('LOCK-9', loc, 'couple:%s' % self.nm(d2[1]), ok_,
+                                    'the read section on node `%s` is opened AFTER the section it was reached under (`%s`) has already been ended: lock coupling is broken - between the two, a writer can restructure this node (cut / extend its key prefix, replace it) and the reader then applies a routing decision made on the old parent to the new node (a present key is reported absent)' % (self.nm(d2[1]), self.nm(x[2])))
             if nm == 'try_read_lock':
                 held = [x[1] for x in W.sel('Act')]
                 self.ob('LOCK-3b', loc, 'wait:try_read_lock', not held,
@@ -1303,6 +1315,7 @@ class FnFlow:
                 W.set_st(cs, 'E')
             elif role[0] == 'DirtyUnder' and role[1] in pn and role[2] in pn:
                 W.add('Dirty', pn[role[1]]['did'], pn[role[2]]['did'])
+                W.add('Under', pn[role[1]]['did'], pn[role[2]]['did'])
                 W.add('Read', pn[role[2]]['did'])
         # guard parameters: active by contract (asserted by the callee in debug builds)
         for p in f.params:
